@@ -10,7 +10,7 @@ use crate::drivers::{self, Final, ParserId, Spec};
 use crate::engine::{replay_from_file, show_bytes, CheckResult, Ctx, Failure, Obs};
 use crate::fail;
 use crate::gen::{choices_strategy, doc_strategy, Doc};
-use crate::source::{feed_strategy, Feed};
+use crate::source::Feed;
 
 pub fn def() -> PropDef {
     PropDef {
@@ -111,13 +111,101 @@ pub fn check(c: &Case, obs: &mut Obs) -> CheckResult {
     Ok(())
 }
 
+// ---------------------------------------------------------------------------------------------
+// Scale: thousands of blank / comment lines between two tokens of one clause
+
+#[derive(Serialize, Deserialize, Clone, Debug, PartialEq, Eq, Hash)]
+pub struct ScaleCase {
+    pub spec: Spec,
+    pub doc: Doc,
+    /// Selects the clause token behind which the filler goes.
+    pub pick: u16,
+    /// 0 blank lines, 1 comment lines, 2 lines of blanks and tabs, 3 CRLF blank lines, 4 empty comments.
+    pub filler: u8,
+    pub n: u32,
+}
+
+pub fn check_scale(c: &ScaleCase, obs: &mut Obs) -> CheckResult {
+    let Doc::Dimacs(d) = &c.doc else { return Ok(()) };
+    let spec = c.spec;
+    let r = c.doc.render(&[], false, false);
+    let first_clause_item = d.header.is_some() as usize;
+    let body: Vec<&crate::gen::Tok> = r
+        .toks
+        .iter()
+        .filter(|t| t.item != usize::MAX && t.item >= first_clause_item && matches!(t.role, crate::gen::Role::Num | crate::gen::Role::Term0))
+        .collect();
+    if body.is_empty() {
+        obs.class("no-clause-token");
+        return Ok(());
+    }
+    let t = body[(c.pick as usize * body.len()) >> 16];
+    let piece: &[u8] = [&b"\n"[..], b"\nc x", b"\n \t ", b"\r\n", b"\nc"][c.filler as usize % 5];
+    let mut bytes = r.bytes[..t.end].to_vec();
+    for _ in 0..c.n {
+        bytes.extend_from_slice(piece);
+    }
+    bytes.extend_from_slice(b"\n");
+    bytes.extend_from_slice(&r.bytes[t.end..]);
+    obs.class(format!("parser/{}", spec.parser.name()));
+    obs.class(format!("filler/{}", c.filler % 5));
+    obs.class(if t.role == crate::gen::Role::Term0 { "between-clauses" } else { "inside-a-clause" });
+    obs.class(match c.n {
+        0..=9_999 => "lines/<10^4",
+        10_000..=99_999 => "lines/10^4..10^5",
+        _ => "lines/>=10^5",
+    });
+    obs.nontrivial();
+    let want = c.doc.expected(&spec);
+    let (tr, _) = crate::engine::on_small_stack(move || drivers::run(&spec, Rc::new(bytes), &Feed::one_shot(), None, true));
+    let p = spec.parser.name();
+    if tr.fin != Final::End || tr.items != want {
+        fail!(
+            format!("C07:{p}:scale"),
+            "{}: {} filler lines of kind {} behind the token at {}:{} changed the result: {} after {} item(s), expected a clean end with {} item(s); document without the filler {:?}",
+            spec.describe(),
+            c.n,
+            c.filler % 5,
+            t.line,
+            t.col,
+            tr.fin.short(),
+            tr.items.len(),
+            want.len(),
+            show_bytes(&r.bytes)
+        );
+    }
+    Ok(())
+}
+
+fn scale_strategy() -> impl Strategy<Value = ScaleCase> {
+    let parsers = vec![ParserId::Cnf, ParserId::Wcnf, ParserId::Gcnf];
+    (proptest::sample::select(parsers), 0u8..5, any::<bool>())
+        .prop_flat_map(|(parser, lit, flag)| {
+            let spec = Spec { parser, lit, flag };
+            (
+                Just(spec),
+                doc_strategy(spec, 5),
+                any::<u16>(),
+                0u8..5,
+                prop_oneof![3 => 1_000u32..20_000, 2 => 20_000u32..150_000, 1 => 150_000u32..400_000],
+            )
+        })
+        .prop_map(|(spec, doc, pick, filler, n)| ScaleCase { spec, doc, pick, filler, n })
+}
+
 fn run(ctx: &Ctx) {
+    // Scale cases run in every shard; they are all the unoptimised extra shard runs.
+    if ctx.profile == "unopt" {
+        ctx.run_cases("layout-scale", ctx.tier.pick(240, 2_400), scale_strategy(), check_scale);
+        return;
+    }
+    ctx.run_cases("layout-scale", ctx.share(ctx.tier.pick(1_600, 16_000)), scale_strategy(), check_scale);
     let n = ctx.share(ctx.tier.pick(1_200_000, 120_000_000));
     let parsers = vec![ParserId::Cnf, ParserId::Wcnf, ParserId::Gcnf, ParserId::Log];
     let strat = (proptest::sample::select(parsers), 0u8..5, any::<bool>())
         .prop_flat_map(|(parser, lit, flag)| {
             let spec = Spec { parser, lit, flag };
-            (Just(spec), doc_strategy(spec, 8), choices_strategy(), feed_strategy())
+            (Just(spec), doc_strategy(spec, 8), choices_strategy(), crate::source::parser_feed_strategy())
         })
         .prop_map(|(mut spec, doc, choices, feed)| {
             // a DIMACS header generated as consistent stays enforced; ignore_header must not matter
@@ -131,6 +219,10 @@ fn run(ctx: &Ctx) {
 
 fn replay(oracle: &str, v: &Value) -> Option<CheckResult> {
     match oracle {
+        "layout-scale" => Some(match replay_from_file::<ScaleCase>(v) {
+            Ok(c) => check_scale(&c, &mut Obs::default()),
+            Err(e) => Err(Failure::new("C07:decode", e)),
+        }),
         "layout" => Some(match replay_from_file::<Case>(v) {
             Ok(c) => check(&c, &mut Obs::default()),
             Err(e) => Err(Failure::new("C07:decode", e)),
